@@ -523,7 +523,7 @@ def stage_a(ctx):
         front, name, cs = job
         cfgp = os.path.join(tlc.BUILD, 'NfdReg_a_%s_%s_%s.cfg' % (front, name, ctx.tier))
         tlc.write_cfg(cfgp, constants=cs, invariants=INVS)
-        return job, tlc.run('NfdReg', cfgp, workers=workers, coverage=(name == 'routes' or (name == 'replies' and not ctx.quick)),
+        return job, tlc.run('NfdReg', cfgp, workers=workers, coverage=(name in ('routes', 'late') or (name == 'replies' and not ctx.quick)),
                             tag='c17a')
     with ThreadPoolExecutor(max_workers=2) as ex:
         done = list(ex.map(big, cfgs))
